@@ -28,16 +28,12 @@ def run(index, tier="quick", seed=0) -> Result:
     # IN-6
     fn = index.cls("Polygon").lookup("is_inside")
     pad = False
-    for node in ast.walk(fn.node):
-        if isinstance(node, ast.If):
-            t = ast.unparse(node.test)
-            pname = fn.params[1] if len(fn.params) > 1 else "points"
-            if "shape" in t and "2" in t and pname in t:
-                for b in ast.walk(node):
-                    if isinstance(b, ast.Call):
-                        nm = b.func.attr if isinstance(b.func, ast.Attribute) else getattr(b.func, "id", "")
-                        if nm in ("hstack", "column_stack", "concatenate", "pad", "append") and "zeros" in ast.unparse(b):
-                            pad = True
+    # a zero column is appended somewhere (under whatever spelling of the `shape[1] == 2` test)
+    for b in ast.walk(fn.node):
+        if isinstance(b, ast.Call):
+            nm = b.func.attr if isinstance(b.func, ast.Attribute) else getattr(b.func, "id", "")
+            if nm in ("hstack", "column_stack", "concatenate", "pad", "append", "c_") and ("zeros" in ast.unparse(b) or nm == "pad"):
+                pad = True
     if pad:
         res.ok("IN-6", "Polygon.is_inside:pad")
     else:
